@@ -131,6 +131,13 @@ Theorem C01_safety_tc_partial : forall p p' md,
     exec_run fuel pick md (p_types p') (p_funs p') (init_config p') <> RError c who e.
 Proof. exact safety_tc_partial. Qed.
 
+(* the two computable premises as the check module evaluates them on every program of the suite *)
+Theorem C01_syn_premises_sound : forall txt, syn_premises_text txt = SY_ok ->
+  exists p p', parse_string txt = POk p /\ typecheck p = Accept p' /\ in_fragment p' /\
+               prog_syn_ok p = true /\ rt_syn_ok p = true /\
+               static_typed (teq_rt (p_types p')) p'.
+Proof. exact syn_premises_sound. Qed.
+
 Example C01_examples_syn_ok :
   text_syn_ok example_text = true /\ text_syn_ok example_drop_text = true /\ text_syn_ok example_split_text = true.
 Proof. exact examples_syn_ok. Qed.
@@ -177,6 +184,7 @@ Print Assumptions C01_teq_rt_laws.
 Print Assumptions C01_tc_annotations_typed.
 Print Assumptions C01_initial_typed_tc.
 Print Assumptions C01_safety_tc_partial.
+Print Assumptions C01_syn_premises_sound.
 Print Assumptions C01_examples_syn_ok.
 Print Assumptions C01_static_check_examples.
 Print Assumptions C01_example_in_fragment.
